@@ -121,6 +121,16 @@ theorem server_resolve_eq (reg : Server.Registry) (ns ev : Str) (args : List J) 
     intro n
     show (reg.fnNs n && reg.fn n Server.star && !(Server.reserved.contains ev)) = _
     cases reg.fnNs n <;> cases reg.fn n Server.star <;> cases Server.reserved.contains ev <;> rfl
+  have hn1 : (serverReg reg).nsExact ns ev =
+      ((ns != Server.star && reg.fnNs ns) && (!(ev == Server.star) && reg.fn ns ev)) := by
+    show (ns != Server.star && (!(ev == Server.star) && (reg.fnNs ns && reg.fn ns ev))) = _
+    cases (ns != Server.star) <;> cases reg.fnNs ns <;> cases (ev == Server.star) <;>
+      cases reg.fn ns ev <;> rfl
+  have hn2 : ((serverReg reg).nsCatch ns && !(Server.reserved.contains ev)) =
+      ((ns != Server.star && reg.fnNs ns) && (!(Server.reserved.contains ev) && reg.fn ns Server.star)) := by
+    show (ns != Server.star && (reg.fnNs ns && reg.fn ns Server.star) && !(Server.reserved.contains ev)) = _
+    cases (ns != Server.star) <;> cases reg.fnNs ns <;> cases reg.fn ns Server.star <;>
+      cases Server.reserved.contains ev <;> rfl
   rw [C13.precedence_table, hR]
   unfold Server.resolve
   dsimp only
@@ -131,16 +141,16 @@ theorem server_resolve_eq (reg : Server.Registry) (ns ev : Str) (args : List J) 
   · rename_i r heq
     rcases ifchain_cases (c2 := !Server.hashable (J.str ev)) rfl _ heq with ⟨h1, h⟩ | ⟨h1, h2, h⟩ | ⟨_, _, h⟩
     · cases h
-      rw [row1 ((hb1 ns).trans h1)]; rfl
+      rw [row1 (hn1.trans h1)]; rfl
     · cases h
-      rw [row2 ((hb1 ns).trans h1) ((hb2 ns).trans h2)]; rfl
+      rw [row2 (hn1.trans h1) (hn2.trans h2)]; rfl
     · cases h
   · rename_i heq
     rcases ifchain_cases (c2 := !Server.hashable (J.str ev)) rfl _ heq with ⟨_, h⟩ | ⟨_, _, h⟩ | ⟨h1, h2, _⟩
     · cases h
     · cases h
-    · have g1 := (hb1 ns).trans h1
-      have g2 := (hb2 ns).trans h2
+    · have g1 := hn1.trans h1
+      have g2 := hn2.trans h2
       split
       · rename_i e heq
         rcases ifchain_cases (c2 := !Server.hashable (J.str ev)) rfl _ heq with
@@ -163,8 +173,8 @@ theorem server_resolve_eq (reg : Server.Registry) (ns ev : Str) (args : List J) 
           have hm : ∀ n, (serverReg reg).hasMethod n ev = reg.clsMethod n (['o', 'n', '_'] ++ ev) :=
             fun _ => rfl
           have hc : (serverReg reg).cls = reg.cls := rfl
-          simp only [hm, hc, hon, J.truthy, Server.evStr, Server.star, Dispatch.star]
-          by_cases h5 : reg.cls ns = true
+          simp only [Dispatch.Reg.nsCls, hm, hc, hon, J.truthy, Server.evStr, Server.star, Dispatch.star]
+          by_cases h5 : (ns != ['*'] && reg.cls ns) = true
           · simp only [h5, if_true]
             cases ev with
             | nil =>
@@ -173,7 +183,7 @@ theorem server_resolve_eq (reg : Server.Registry) (ns ev : Str) (args : List J) 
             | cons c cs =>
               cases h : reg.clsMethod ns (['o', 'n', '_'] ++ c :: cs)
               all_goals simp [serverRes, serverSlot, prefixJ, Dispatch.Slot.isFn, Dispatch.methodName]
-          · have h5' : reg.cls ns = false := by simpa using h5
+          · have h5' : (ns != ['*'] && reg.cls ns) = false := by simpa using h5
             by_cases h6 : reg.cls ['*'] = true
             · simp only [h5', h6, if_true, if_false, Bool.false_eq_true]
               cases ev with
@@ -231,21 +241,27 @@ theorem client_resolve_eq (r : Client.Reg) (n ev : Str) (args : List J) :
     rw [hs]
     by_cases h : ev = Dispatch.star <;> simp [h]
   have hm : ∀ k, (clientReg r).hasMethod k ev = r.method k ev := fun _ => rfl
-  rw [C13.precedence_table, hR, hx, hx, hm, hm]
+  rw [C13.precedence_table, hR, hx, hm, hm]
   unfold Client.Reg.resolve
-  simp only [show (clientReg r).fn = r.fn from rfl, show (clientReg r).cls = r.cls from rfl,
+  simp only [Dispatch.Reg.nsExact, Dispatch.Reg.nsCatch, Dispatch.Reg.nsCls, hx, bne,
+    show (clientReg r).fn = r.fn from rfl, show (clientReg r).cls = r.cls from rfl,
     show Dispatch.star = Client.star from rfl]
-  generalize (decide (ev ≠ Client.star) && r.fn n ev) = b1
-  generalize (decide (ev ≠ Client.star) && r.fn Client.star ev) = b3
-  generalize Client.reserved.contains ev = res
-  generalize r.fn n Client.star = b2
-  generalize r.fn Client.star Client.star = b4
-  generalize r.cls n = b5
-  generalize r.cls Client.star = b6
-  generalize r.method n ev = m5
-  generalize r.method Client.star ev = m6
-  cases b1 <;> cases b2 <;> cases b3 <;> cases b4 <;> cases res <;> cases b5 <;> cases b6 <;> cases m5 <;>
-    cases m6 <;> rfl
+  have hs : (n == Client.star) = true ∨ (n == Client.star) = false := by
+    cases (n == Client.star) <;> simp
+  rcases hs with hs | hs <;> simp only [hs, Bool.not_true, Bool.not_false, Bool.false_and, Bool.true_and,
+    Bool.false_eq_true, if_false, if_true]
+  all_goals
+    generalize (decide (ev ≠ Client.star) && r.fn n ev) = b1
+    generalize (decide (ev ≠ Client.star) && r.fn Client.star ev) = b3
+    generalize Client.reserved.contains ev = res
+    generalize r.fn n Client.star = b2
+    generalize r.fn Client.star Client.star = b4
+    generalize r.cls n = b5
+    generalize r.cls Client.star = b6
+    generalize r.method n ev = m5
+    generalize r.method Client.star ev = m6
+    cases b1 <;> cases b2 <;> cases b3 <;> cases b4 <;> cases res <;> cases b5 <;> cases b6 <;> cases m5 <;>
+      cases m6 <;> rfl
 
 /-! ## corollaries: the C13 table for what the models invoke -/
 
@@ -281,11 +297,13 @@ theorem step_invokes_table {dec : Str → Except Err (Packet × Nat)} {cfg : Ser
     (Server.step dec cfg s (.frame t v)).2.filter Server.Out.isInvoke =
       invokesOf (nsp.getD ['/']) ev (.str sid :: args)
         (Dispatch.table (Generated.serverReserved.contains ev)
-          (ev != Dispatch.star && (cfg.reg.fnNs (nsp.getD ['/']) && cfg.reg.fn (nsp.getD ['/']) ev))
-          (cfg.reg.fnNs (nsp.getD ['/']) && cfg.reg.fn (nsp.getD ['/']) Dispatch.star)
+          (nsp.getD ['/'] != Dispatch.star &&
+            (ev != Dispatch.star && (cfg.reg.fnNs (nsp.getD ['/']) && cfg.reg.fn (nsp.getD ['/']) ev)))
+          (nsp.getD ['/'] != Dispatch.star &&
+            (cfg.reg.fnNs (nsp.getD ['/']) && cfg.reg.fn (nsp.getD ['/']) Dispatch.star))
           (ev != Dispatch.star && (cfg.reg.fnNs Dispatch.star && cfg.reg.fn Dispatch.star ev))
           (cfg.reg.fnNs Dispatch.star && cfg.reg.fn Dispatch.star Dispatch.star)
-          (cfg.reg.cls (nsp.getD ['/'])) (cfg.reg.cls Dispatch.star)
+          (nsp.getD ['/'] != Dispatch.star && cfg.reg.cls (nsp.getD ['/'])) (cfg.reg.cls Dispatch.star)
           (cfg.reg.clsMethod (nsp.getD ['/']) ("on_".toList ++ ev))
           (cfg.reg.clsMethod Dispatch.star ("on_".toList ++ ev))) := by
   rw [step_invokes_dispatch h hc hs hsync, C13.precedence_table]
